@@ -475,9 +475,13 @@ class SqliteIndex(Index):
                 (sketch_id, max_hash),
             )
         else:
+            # max_hash does not fit a signed 64-bit integer: hashes above MAX_SQLITE_INT are
+            # stored as negative numbers, in unsigned order
             c1.execute(
-                "SELECT COUNT(hashval) FROM sourmash_hashes WHERE sketch_id=?",
-                (sketch_id,),
+                """
+            SELECT COUNT(hashval) FROM sourmash_hashes
+            WHERE sketch_id=? AND (hashval >= 0 OR hashval <= ?)""",
+                (sketch_id, convert_hash_to(max_hash)),
             )
 
         (n_hashes,) = c1.fetchone()
